@@ -137,7 +137,17 @@ def check_swap(ctx, form, dims_r, dims_c, sys, row_only, dim_form):
         dim_py, dim_js = list(d), list(d)
     else:
         dim_py, dim_js = [list(dims_r), list(dims_c)], [list(dims_r), list(dims_c)]
-    impl = _call(swap, X, list(sys), dim_py, row_only)
+    sys_nd = bool(ctx.rng.integers(3) == 0)          # the documented forms of `sys`: list or ndarray
+    sys_arg = np.array(sys) if sys_nd else list(sys)
+    impl = _call(swap, X, sys_arg, dim_py, row_only)
+    if sys_nd:
+        # caller data must not be modified, and a second call with the same objects must give the same result
+        again = _call(swap, X, sys_arg, dim_py, row_only)
+        same = impl[0] == again[0] and (impl[0] != "ok" or np.array_equal(np.asarray(impl[1]), np.asarray(again[1])))
+        if not np.array_equal(sys_arg, np.array(sys)) or not same:
+            ctx.violation("swap: caller's `sys` array was modified / a repeated call with the same arguments gives a different result",
+                          {"function": "swap", "args": {"fn": "swap", "form": form, "dims_r": dims_r, "dims_c": dims_c, "sys": sys, "row_only": row_only, "dim_form": dim_form},
+                           "sys_after": sys_arg.tolist(), "theorem": "swap_eq_transposition (a function of its arguments)"})
     args = {"shape": shape, "data": list(range(int(np.prod(shape)))), "sys": list(sys), "dim": dim_js, "row_only": int(row_only)}
     model = ctx.lean().ask("swap", args)
     desc = {"fn": "swap", "form": form, "dims_r": dims_r, "dims_c": dims_c, "sys": sys, "row_only": row_only, "dim_form": dim_form}
